@@ -141,8 +141,8 @@ def expect(ctx, ok_formula, r, what):
                              sig=str(r.status))
 
 
-def fam_post(n):
-    fs = forests(n)
+def fam_post(n, fs=None, tag=''):
+    fs = fs or forests(n)
 
     def path(ctx):
         app.setup()
@@ -175,14 +175,14 @@ def fam_post(n):
             return finish(ctx, 'post:%s:%d' % (
                 'none' if parent is None else parent
                 if isinstance(parent, str) else 'p', r.status))
-    return Family('post-%d' % n, path,
+    return Family('post-%d%s' % (n, tag), path,
                   bounds=dict(pool=n, forests=len(fs),
                               parents='none, each provider, missing, self',
                               minor='symbolic 0..39'))
 
 
-def fam_put(n):
-    fs = forests(n)
+def fam_put(n, fs=None, tag=''):
+    fs = fs or forests(n)
 
     def path(ctx):
         app.setup()
@@ -246,15 +246,15 @@ def fam_put(n):
                                      '%s' % (got, want))
             check_forest(ctx, w, post, None)
             return finish(ctx, 'put:%d' % r.status)
-    return Family('put-%d' % n, path,
+    return Family('put-%d%s' % (n, tag), path,
                   bounds=dict(pool=n, forests=len(fs),
                               new_parent='absent, null, missing, each '
                               'provider (incl. self and descendants)',
                               minor='symbolic 0..39'))
 
 
-def fam_delete(n):
-    fs = forests(n)
+def fam_delete(n, fs=None, tag=''):
+    fs = fs or forests(n)
 
     def path(ctx):
         app.setup()
@@ -278,7 +278,7 @@ def fam_delete(n):
                            'rejected DELETE changed the providers')
             check_forest(ctx, w, post, None)
             return finish(ctx, 'delete:%d' % r.status)
-    return Family('delete-%d' % n, path,
+    return Family('delete-%d%s' % (n, tag), path,
                   bounds=dict(pool=n, forests=len(fs)))
 
 
@@ -339,6 +339,20 @@ def conc_family(name, specs):
         schedules='every interleaving at transaction granularity'))
 
 
+def deep_forests():
+    """hand-picked forests over 8 providers (the pool size the statement
+    names): deep chains in both id orders, wide and mixed trees"""
+    N = None
+    return [
+        {1: N, 2: 1, 3: 2, 4: 3, 5: 4, 6: 5, 7: 6, 8: 7},
+        {8: N, 7: 8, 6: 7, 5: 6, 4: 5, 3: 4, 2: 3, 1: 2},
+        {1: N, 2: 1, 3: 2, 4: 3, 5: N, 6: 5, 7: 6, 8: 7},
+        {1: N, 2: 1, 3: 1, 4: 1, 5: 1, 6: 1, 7: 1, 8: 1},
+        {1: N, 2: 1, 3: 1, 4: 2, 5: 2, 6: 3, 7: 3, 8: N},
+        {8: N, 3: 8, 5: 3, 1: 5, 2: 8, 4: 2, 6: 4, 7: N},
+    ]
+
+
 def families(tier):
     n = 3 if tier == 'quick' else 4
     fams = [fam_post(n), fam_put(n), fam_delete(n),
@@ -347,6 +361,9 @@ def families(tier):
             conc_family('move+move', [('put', 2, 4, False),
                                       ('put', 2, 5, False)])]
     if tier == 'thorough':
+        deep = deep_forests()
+        fams += [fam_post(8, deep, '-deep'), fam_put(8, deep, '-deep'),
+                 fam_delete(8, deep, '-deep')]
         fams += [
             conc_family('move+unparent', [('put', 2, 4, False),
                                           ('put', 2, None, False)]),
@@ -371,6 +388,7 @@ if __name__ == '__main__':
                      'thorough providers) with correct root pointers; parent '
                      'links concrete per path (explorer decisions), '
                      'microversion minor and generations symbolic',
-                     'pool of up to 8 providers in the statement is outside '
-                     'the claim'],
+                     'pools of 5-8 providers: six hand-picked forests over 8 '
+                     'providers in the thorough tier (deep chains in both '
+                     'id orders, star, binary, mixed), not all forests'],
         quick_budget=170, thorough_budget=1700))
